@@ -67,3 +67,9 @@ MUTANTS += [
      [(GSF, "        child_shape_elms = list(self.iter_shape_elms())\n", "        child_shape_elms = [xSp for xSp in self.iter_shape_elms() if xSp.cx and xSp.cy]\n")],
      "R17.2 CT_GroupShape._child_extents"),
 ]
+
+MUTANTS += [
+    ("left-rounds-half-up-by-truncation", "the freeform's left is rounded as int(x + 0.5)",
+     [("src/pptx/shapes/freeform.py", "        return int(round(self.shape_offset_x * self._x_scale))", "        return int(self.shape_offset_x * self._x_scale + 0.5)")],
+     "R17.4 FreeformBuilder._left"),
+]
